@@ -197,7 +197,8 @@ pub fn check_cell(cell: &Cell2, case: &Case, st: &mut Stats) {
     }
     // 4. area
     let area = cell.area();
-    if (area - lat.area()).abs() > 1e-12 * lat.area() {
+    // (a product of three doubles and a sine: a few ulps whatever the order of the factors)
+    if (area - lat.area()).abs() > 1e-14 * lat.area() {
         st.violation(viol("area", case, json!({"got": area, "want": lat.area()})));
     }
     // 5. centre and corners
